@@ -822,6 +822,27 @@ func (e *Env) callExpr(x *ECall) tv {
 	case "cap":
 		r := e.eval(x.Args[0])
 		return tv{scap(r.v.(*Term)), types.Typ[types.Int]}
+	case "aliases":
+		// aliases(a, b): the two slices (or pointers) live in the same allocation
+		ra, rb := e.eval(x.Args[0]), e.eval(x.Args[1])
+		ta, okA := ra.v.(*Term)
+		tb, okB := rb.v.(*Term)
+		if !okA || !okB {
+			e.fail("aliases(): slices or pointers expected")
+		}
+		refOf := func(t *Term) *Term {
+			switch t.Sort {
+			case SSlice:
+				return sarr(t)
+			case SPtr:
+				return parr(t)
+			case SRef:
+				return t
+			}
+			e.fail("aliases() of %s", t.Sort)
+			return nil
+		}
+		return tv{Eq(refOf(ta), refOf(tb)), types.Typ[types.Bool]}
 	case "fresh":
 		r := e.eval(x.Args[0])
 		t := r.v.(*Term)
